@@ -252,8 +252,19 @@ func execSend(a []string) (string, string) {
 		if r == nil {
 			return out, fmt.Sprintf("datagram %d is not acceptable to the BMC: %s", i+1, why)
 		}
-		if r.seq != inb+uint32(i)+1 {
-			return out, fmt.Sprintf("datagram %d carries sequence number %d, want %d", i+1, r.seq, inb+uint32(i)+1)
+		// below the 32-bit limit: exactly counter+i+1. Beyond it the property's "strictly increasing" cannot hold for any
+		// implementation; what remains required there is that no number is used for two datagrams (the exact continuation
+		// — the Go counter goes on with 0, 1, … — is compared with the model only)
+		if want := uint64(inb) + uint64(i) + 1; want <= 0xffffffff {
+			if r.seq != uint32(want) {
+				return out, fmt.Sprintf("datagram %d carries sequence number %d, want %d", i+1, r.seq, want)
+			}
+		} else {
+			for j := 0; j < i; j++ {
+				if q, _ := e.bmc.open(e.sent[j]); q != nil && q.seq == r.seq {
+					return out, fmt.Sprintf("datagrams %d and %d both carry sequence number %d", j+1, i+1, r.seq)
+				}
+			}
 		}
 		if r.rsAddr != 0x20 || r.rqAddr != 0x81 || r.netFn != fn || r.lun != lun&3 || r.cmd != cmdNo ||
 			!bytes.Equal(r.data, append(append([]byte(nil), prefix...), req.b...)) {
@@ -385,7 +396,8 @@ func execSendSeq(a []string) (string, string) {
 			verdict = fmt.Sprintf("datagram %d reuses the session sequence number %d of datagram %d", i+1, q, j+1)
 		}
 		seen[q] = i
-		if want := inb + uint32(i) + 1; q != want && verdict == "" {
+		// exact value below the 32-bit limit only (beyond it: no reuse, above; the continuation is compared with the model)
+		if want := uint64(inb) + uint64(i) + 1; want <= 0xffffffff && uint64(q) != want && verdict == "" {
 			verdict = fmt.Sprintf("datagram %d carries sequence number %d, want %d", i+1, q, want)
 		}
 	}
@@ -776,7 +788,11 @@ func genSend(g *genCtx) {
 		if fail {
 			rq = "!"
 		}
-		g.emit(Op{Class: 'P', NonTrivial: nontrivial, Kind: "send", Args: []string{itoa(int(sp.auth)), itoa(int(sp.integ)), hx(sp.k1), hx(sp.k2),
+		class := byte('P')
+		if uint64(inb)+uint64(len(items)) > 0xffffffff {
+			class = 'M' // the counter wraps during this op: outside the domain of the sequence-number theorems
+		}
+		g.emit(Op{Class: class, NonTrivial: nontrivial, Kind: "send", Args: []string{itoa(int(sp.auth)), itoa(int(sp.integ)), hx(sp.k1), hx(sp.k2),
 			fmt.Sprint(sp.lid), fmt.Sprint(sp.rid), fmt.Sprint(inb), itoa(int(fn)), itoa(int(cmdNo)), itoa(int(body)), fmt.Sprint(ent),
 			itoa(int(lun)), rq, hx(entropy), strings.Join(items, ",")}})
 	}
@@ -799,7 +815,13 @@ func genSend(g *genCtx) {
 			}
 			// request lengths cover every residue mod 16 (AES pad) and mod 4 (integrity pad)
 			req := rbytes(g.rng, g.rng.Intn(40))
-			emit(sp, script, uint32(g.rng.Intn(1000)), fn, byte(g.rng.Intn(256)), body, ent, byte(g.rng.Intn(4)), req, false)
+			// the counter the session starts from: mostly small, sometimes right below a boundary (16-bit, 31-bit, and the
+			// 32-bit wrap, where the Go counter continues with 0, 1, …)
+			inb := uint32(g.rng.Intn(1000))
+			if g.rng.Intn(6) == 0 {
+				inb = []uint32{0xfffffffc, 0xfffffffd, 0xfffffffe, 0xffffffff, 0x7ffffffe, 0x7fffffff, 0xfffe, 0xffff}[g.rng.Intn(8)]
+			}
+			emit(sp, script, inb, fn, byte(g.rng.Intn(256)), body, ent, byte(g.rng.Intn(4)), req, false)
 		}
 		// every request length 0…63 answered at once; counters near the 32-bit limit; a request that cannot be serialised
 		for n := 0; n < 64; n++ {
@@ -821,7 +843,7 @@ func genSend(g *genCtx) {
 			hist = 400
 		}
 		for n := 0; n < hist; n++ {
-			inb0 := []uint32{0, 0, 5, 0xfffffff0}[g.rng.Intn(4)]
+			inb0 := []uint32{0, 0, 5, 0xfffffff0, 0xfffffffb, 0xfffffffe, 0xffffffff, 0x7ffffffd}[g.rng.Intn(8)]
 			var scripts []string
 			attempt := 0
 			for c := 0; c < 2+g.rng.Intn(5); c++ {
@@ -844,7 +866,11 @@ func genSend(g *genCtx) {
 				}
 				scripts = append(scripts, strings.Join(items, ","))
 			}
-			g.emit(Op{Class: 'P', NonTrivial: true, Kind: "sendseq", Args: []string{itoa(int(sp.auth)), itoa(int(sp.integ)), hx(sp.k1), hx(sp.k2),
+			class := byte('P')
+			if uint64(inb0)+uint64(attempt) > 0xffffffff {
+				class = 'M' // the counter wraps during this history
+			}
+			g.emit(Op{Class: class, NonTrivial: true, Kind: "sendseq", Args: []string{itoa(int(sp.auth)), itoa(int(sp.integ)), hx(sp.k1), hx(sp.k2),
 				fmt.Sprint(sp.lid), fmt.Sprint(sp.rid), fmt.Sprint(inb0), hx(rbytes(g.rng, 16*(attempt+len(scripts)+2))), strings.Join(scripts, "|")}})
 		}
 	}
